@@ -327,11 +327,11 @@ Section TwoList.
     cbn [fst snd nadd n0 ROps]. rewrite !Rplus_0_l. reflexivity.
   Qed.
 
-  Theorem order_two_list : forall cy mt m a b,
-    spike_train_order_multi ROps eps cy false true mt m [a; b] None
-    = spike_train_order_bi ROps eps cy false true mt m a b.
+  Theorem order_two_list : forall cy nrm mt m a b,
+    spike_train_order_multi ROps eps cy false nrm mt m [a; b] None
+    = spike_train_order_bi ROps eps cy false nrm mt m a b.
   Proof.
-    intros cy mt m a b. unfold spike_train_order_multi, spike_train_order_bi. cbv zeta.
+    intros cy nrm mt m a b. unfold spike_train_order_multi, spike_train_order_bi. cbv zeta.
     cbn [prep2 length indices_or_all seq check_indices forallb Nat.ltb Nat.leb andb negb
          pairs_of map app fold_left fst snd nth_train nth rbind].
     destruct (order_impl ROps eps cy mt m a b) as [v|e]; cbn [rmap]; [|reflexivity].
@@ -415,11 +415,11 @@ Section TwoList.
     rewrite reconcile_two. reflexivity.
   Qed.
 
-  Theorem order_two_list_rc : forall cy mt m a b,
-    spike_train_order_multi ROps eps cy true true mt m [a; b] None
-    = spike_train_order_bi ROps eps cy true true mt m a b.
+  Theorem order_two_list_rc : forall cy nrm mt m a b,
+    spike_train_order_multi ROps eps cy true nrm mt m [a; b] None
+    = spike_train_order_bi ROps eps cy true nrm mt m a b.
   Proof.
-    intros cy mt m a b. rewrite bi_reconciles_once_spike_train_order_bi.
+    intros cy nrm mt m a b. rewrite bi_reconciles_once_spike_train_order_bi.
     rewrite <- order_two_list. unfold spike_train_order_multi. cbv zeta.
     rewrite reconcile_two. reflexivity.
   Qed.
